@@ -271,6 +271,17 @@ def ars222():
               b_ex=[d, 1 - d, 0.0], b_im=[0.0, 1 - g, g])
 
 
+def ars232():
+  """Ascher, Ruuth & Spiteri (1997) IMEX (2,3,2): the implicit part is stiffly accurate
+  (b_im equals the last row of a_im) while the explicit part is NOT (b_ex differs from the last
+  row of a_ex) -- the class on which a "return the last stage" shortcut keyed on the implicit
+  half alone goes wrong."""
+  g = (2 - math.sqrt(2)) / 2
+  d = -2 * math.sqrt(2) / 3
+  return dict(a_ex=[[g], [d, 1 - d]], a_im=[[0.0, g], [0.0, 1 - g, g]],
+              b_ex=[0.0, 1 - g, g], b_im=[0.0, 1 - g, g])
+
+
 def imex_euler():
   """Forward/backward Euler pair as a 2-stage IMEX tableau (first order)."""
   return dict(a_ex=[[1.0]], a_im=[[0.0, 1.0]], b_ex=[1.0, 0.0], b_im=[0.0, 1.0])
@@ -352,9 +363,35 @@ def random_lowstorage_set(rng, stages: int, order: int):
   raise RuntimeError('could not generate a low-storage coefficient set')
 
 
-def random_imex_tableau(rng, stages: int, zero_fraction: float = 0.25):
-  """Random first-order consistent ragged IMEX tableau with some exact zeros."""
+def random_imex_tableau(rng, stages: int, zero_fraction: float = 0.25, structure: str = 'none'):
+  """Random first-order consistent ragged IMEX tableau with some exact zeros.
+
+  structure: 'none' | 'sa_im' (b_im equals the last row of a_im, explicit half generic) |
+  'sa_ex' (b_ex equals the last row of a_ex padded with 0, implicit half generic) | 'sa_both' |
+  'b_equal' (b_ex == b_im).  These are the coincidences an implementation may be tempted to
+  special-case (stiffly accurate / FSAL shortcuts)."""
   s = int(stages)
+  if structure != 'none':
+    base = random_imex_tableau(rng, stages, zero_fraction=0.0)
+    a_ex, a_im = base['a_ex'], base['a_im']
+    b_ex, b_im = np.array(base['b_ex']), np.array(base['b_im'])
+    if structure in ('sa_im', 'sa_both'):
+      row = np.array(a_im[-1], dtype=float)
+      if abs(row.sum()) < 0.2:
+        row[-1] += 1.0
+      row = row / row.sum()
+      a_im[-1] = list(map(float, row))
+      b_im = row.copy()
+    if structure in ('sa_ex', 'sa_both'):
+      row = np.array(a_ex[-1], dtype=float)
+      if abs(row.sum()) < 0.2:
+        row[-1] += 1.0
+      row = row / row.sum()
+      a_ex[-1] = list(map(float, row))
+      b_ex = np.concatenate([row, [0.0]])
+    if structure == 'b_equal':
+      b_im = b_ex.copy()
+    return dict(a_ex=a_ex, a_im=a_im, b_ex=list(map(float, b_ex)), b_im=list(map(float, b_im)))
 
   def draw(n):
     v = rng.uniform(-0.6, 0.9, n)
